@@ -469,6 +469,79 @@ func c12Thresholds(c *Ctx) {
 	}
 }
 
+// fillEveryBatch: some call of b's function that does the lane filling — its term, or a term of the helper it calls,
+// matches one of pats — cannot be bypassed on the way to the lane test (c12EveryBatch).
+func fillEveryBatch(c *Ctx, b *ana.Builder, hit []ana.Edge, pats ...string) bool {
+	isFill := func(t *ana.Term) bool {
+		if calleeOf(t) == nil {
+			return false
+		}
+		for _, p := range pats {
+			if matches(p, t) {
+				return true
+			}
+		}
+		return false
+	}
+	for _, ci := range ana.Calls(b.Fn) {
+		t := b.CallTermAt(ci)
+		ok := isFill(t)
+		if !ok {
+			if h := ana.StaticRepoCallee(ci.Common()); h != nil && h.Blocks != nil {
+				if call := stripObj(t); call != nil && call.Op == "call" && len(call.Args) == len(h.Params) {
+					for _, t2 := range deepCallTerms(c, boundBuilderP(c.P, call)) {
+						ok = ok || isFill(t2)
+					}
+				}
+			}
+		}
+		if ok && c12EveryBatch(b.Fn, ci.Block(), hit) {
+			return true
+		}
+	}
+	return false
+}
+
+// c12EveryBatch: every path to the block that tests the lanes (the source of the hit edges) — from the entry, and from
+// that block round the mining loop back to itself — passes the header of the loop that does the filling at block f (f
+// itself when the filling is a single call in the mining loop's body).
+func c12EveryBatch(fn *ssa.Function, f *ssa.BasicBlock, hit []ana.Edge) bool {
+	if len(hit) == 0 {
+		return false
+	}
+	var inner map[*ssa.BasicBlock]bool
+	var header *ssa.BasicBlock
+	for _, e := range ana.BackEdges(fn) {
+		if lb := ana.LoopBlocks(e); lb[f] && (inner == nil || len(lb) < len(inner)) {
+			inner, header = lb, e.To
+		}
+	}
+	if inner == nil {
+		return false
+	}
+	node := header
+	for _, h := range hit {
+		if inner[h.From] {
+			node = f // the innermost loop round the filling is the mining loop itself
+		}
+	}
+	var removed []ana.Edge
+	for _, p := range node.Preds {
+		removed = append(removed, ana.Edge{From: p, To: node})
+	}
+	for _, h := range hit {
+		if h.From == node || ana.ReachableAvoiding(fn, removed)[h.From] {
+			return false
+		}
+		for _, s := range h.From.Succs {
+			if ana.ReachableFrom(s, removed)[h.From] {
+				return false
+			}
+		}
+	}
+	return true
+}
+
 func c12Worker(c *Ctx) {
 	r := c.R
 	f := c.fn("pkg/pow/v2", "Worker.worker")
@@ -505,11 +578,15 @@ func c12Worker(c *Ctx) {
 		}
 	}
 	fill := false
+	fillPat := "call<*>(slice(load(iaddr(_, bin<+>(ind<+1>(-1), 1))), call<github.com/iotaledger/iota.go/encoding/b1t6.EncodedLen>(len(" + PD + ")), none), bin<+>(ind<+" + WS + ">(" + PS + "), conv<uint64>(bin<+>(ind<+1>(-1), 1))))"
 	for _, t := range deepCallTerms(c, b) {
-		if matches("call<*>(slice(load(iaddr(_, bin<+>(ind<+1>(-1), 1))), call<github.com/iotaledger/iota.go/encoding/b1t6.EncodedLen>(len("+PD+")), none), bin<+>(ind<+"+WS+">("+PS+"), conv<uint64>(bin<+>(ind<+1>(-1), 1))))", t) && calleeOf(t) != nil {
+		if matches(fillPat, t) && calleeOf(t) != nil {
 			fill = true
 		}
 	}
+	// … on every trip of the mining loop, before the lanes are tested: the call of the worker that does the filling
+	// (itself, or through a helper) cannot be bypassed on the way to the lane test, neither from the entry nor from one
+	// lane test to the next (round-8 seed C12-r8-2: the full nonce only re-encoded when its high bytes change)
 	if !fill {
 		// the nonce window of every lane buffer taken once into an array of views (as in C11): views[i] = buf[i][off:] stored
 		// by a loop over the whole batch, nothing else stored into it, and the lane loop ranges over the views
@@ -546,6 +623,12 @@ func c12Worker(c *Ctx) {
 		}
 	}
 	r.Check(fill, "C12.return.lane-filling", c.P.Pos(fn.Pos()), "lane i of each batch carries nonce base+i at the digest offset")
+	// … on every trip of the mining loop, before the lanes are tested (round-8 seed C12-r8-2: the full nonce re-encoded
+	// only when its high bytes change, the low bytes patched otherwise)
+	if fill {
+		viewsPat := "call<*>(load(iaddr(slice(_, 0, none), bin<+>(ind<+1>(-1), 1))), bin<+>(ind<+" + WS + ">(" + PS + "), conv<uint64>(bin<+>(ind<+1>(-1), 1))))"
+		r.Check(fillEveryBatch(c, b, hit, fillPat, viewsPat), "C12.return.lane-filling-every-batch", c.P.Pos(fn.Pos()), "the nonce base+i is encoded into every lane on every trip of the mining loop: no path from the entry, or from one lane test to the next, reaches the lane test without passing the filling loop")
+	}
 	// thresholds are computed once in Mine and handed to every worker
 	mb := ana.NewBuilder(c.P, mine)
 	var sCell, tCell bool
